@@ -33,6 +33,8 @@ CONFIGS = {
     "tube_right_nx3": dict(model="tube", sym=True, relief=True, side="right", nx=3),
     # rotation rates about a user-given centre (AerostructPoint(rotational=True))
     "tube_full_rot": dict(model="tube", sym=False, relief=True, rot=True),
+    # wing + tail of the same spanwise size in one flight point, both with weight relief; the design points change the wing only
+    "tube_two_relief": dict(model="tube", sym=True, relief=True, two=True),
 }
 
 
@@ -70,7 +72,7 @@ def states(tier, seed):
             continue
         st.append(dict(part="path", cfg=c, nl=nl, lin=lin, guess=guess, order=list(order), fam=fam))
     # parts fixed / stiff rebuild the discipline chain (resp. the rigid limit) inside the harness without point masses or rotation
-    plain = [c for c in CONFIGS if not CONFIGS[c].get("pm") and not CONFIGS[c].get("rot")]
+    plain = [c for c in CONFIGS if not CONFIGS[c].get("pm") and not CONFIGS[c].get("rot") and not CONFIGS[c].get("two")]
     for c in cfgs if tier == "quick" else plain:
         for k in range(3):
             st.append(dict(part="fixed", cfg=c, k=k, fam=fam))
@@ -80,6 +82,7 @@ def states(tier, seed):
         st.append(dict(part="path", cfg="tube_sym_pm", nl="nlbgs", lin="direct", guess="default", order=list(order), fam=fam))
         st.append(dict(part="path", cfg="tube_right_nx3", nl="newton", lin="lbgs", guess="default", order=list(order), fam=fam))
         st.append(dict(part="path", cfg="tube_full_rot", nl="default", lin="default", guess="default", order=list(order), fam=fam))
+        st.append(dict(part="path", cfg="tube_two_relief", nl="default", lin="default", guess="default", order=list(order), fam=fam))
     for k in range(3):
         st.append(dict(part="fixed", cfg="tube_right_nx3", k=k, fam=fam))
     st.append(dict(part="multi", cfg="tube_right_nx3", npts=2, rev=False, fam=fam))
@@ -102,12 +105,23 @@ def surface(cfg, fam, E_scale=1.0):
     return s
 
 
+def surfaces(cfg, fam):
+    out = [surface(cfg, fam)]
+    if CONFIGS[cfg].get("two"):
+        m = gen.make_mesh("swept", 2, 3, "left", fam, span=5.0, chord=1.0, offset=[6.0, 0.0, 0.8])
+        out.append(builders.struct_surface("tail", m, True, "tube", struct_weight_relief=True, with_viscous=True, thickness_cp=np.array([0.012, 0.015])))
+    return out
+
+
 FLOW = dict(Mach_number=0.5, W0=2.0e3, v=100.0, rho=0.9, alpha=4.0, speed_of_sound=200.0, R=2.0e6, load_factor=1.3)
 OBS = ["CL", "CD", "CM", "fuelburn", "L_equals_W", "wing_perf.failure", "wing_perf.vonmises", "coupled.wing.disp", "coupled.wing_loads.loads", "coupled.aero_states.circulations", "coupled.wing.def_mesh"]
 
 
-def observe(p, pt="AS_point_0"):
-    return {o: np.array(p[pt + "." + o], dtype=float).copy() for o in OBS}
+OBS_TAIL = ["tail_perf.vonmises", "coupled.tail.disp", "coupled.tail_loads.loads", "coupled.tail.struct_states.struct_weight_loads", "coupled.wing.struct_states.struct_weight_loads"]
+
+
+def observe(p, pt="AS_point_0", two=False):
+    return {o: np.array(p[pt + "." + o], dtype=float).copy() for o in OBS + (OBS_TAIL if two else [])}
 
 
 def set_pt(p, k):
@@ -122,11 +136,11 @@ def ref_obs(cfg, fam, k):
     key = (cfg, fam, k)
     if key not in _REFS:
         fl, rk = rot_kw(cfg, FLOW)
-        p = builders.build_aerostruct([surface(cfg, fam)], fl, pm=pm_of(cfg), **rk)
+        p = builders.build_aerostruct(surfaces(cfg, fam), fl, pm=pm_of(cfg), **rk)
         builders.tighten(p)
         set_pt(p, k)
         p.run_model()
-        _REFS[key] = observe(p)
+        _REFS[key] = observe(p, two=bool(CONFIGS[cfg].get("two")))
     return _REFS[key]
 
 
@@ -136,10 +150,11 @@ def run_state(s):
 
 def part_path(s):
     fl, rk = rot_kw(s["cfg"], FLOW)
-    p = builders.build_aerostruct([surface(s["cfg"], s["fam"])], fl, pm=pm_of(s["cfg"]), **rk)
+    p = builders.build_aerostruct(surfaces(s["cfg"], s["fam"]), fl, pm=pm_of(s["cfg"]), **rk)
     builders.tighten(p, nl=s["nl"], lin=s["lin"])
     viol, val = [], 0
     dg = []
+    two = bool(CONFIGS[s["cfg"]].get("two"))
     for step, k in enumerate(s["order"]):
         set_pt(p, k)
         if s["guess"] == "scaled":
@@ -155,9 +170,9 @@ def part_path(s):
             p.run_model()
         except om.AnalysisError as e:
             return dict(viol=viol, nontrivial=False, digest="nonconv:%s/%s" % (s["nl"], s["lin"]), transitions=step + 1, validated=val, inadmissible=True, counters=dict(nonconvergent=1))
-        got = observe(p)
+        got = observe(p, two=two)
         ref = ref_obs(s["cfg"], s["fam"], k)
-        for o in OBS:
+        for o in ref:
             val += 1
             sc = max(np.abs(ref[o]).max(), 1e-300)
             e = np.abs(got[o] - ref[o]).max() / sc
